@@ -5,6 +5,10 @@ import json, os, re, subprocess, sys
 V = os.path.dirname(os.path.dirname(os.path.abspath(__file__)))
 def sh(cmd, **kw):
     return subprocess.run(cmd, capture_output=True, text=True, **kw)
+# the checks rewrite evidence/<Cxx>.json; what they write under a seeded change must not stay behind
+import shutil, tempfile
+_saved = tempfile.mkdtemp(prefix="evidence-saved-")
+shutil.copytree(os.path.join(V, "evidence"), os.path.join(_saved, "evidence"))
 for arg in sys.argv[1:]:
     mid, _, extra = arg.partition(":")
     d = os.path.join(V, "seeded", mid)
@@ -38,6 +42,9 @@ for arg in sys.argv[1:]:
         sh(["git", "-C", "/repo", "checkout", "--", "."])
     json.dump(res, open(os.path.join(d, "result.json"), "w"), indent=1)
     print(mid, {p: e["verdict"] for p, e in res["checks"].items()}, flush=True)
+shutil.rmtree(os.path.join(V, "evidence"))
+shutil.copytree(os.path.join(_saved, "evidence"), os.path.join(V, "evidence"))
+shutil.rmtree(_saved, ignore_errors=True)
 # restore generated files and builds for the clean tree
 sh(["python3", os.path.join(V, "tools", "translate.py")], cwd=V)
 sh(["lake", "build", "ChessVerif", "chessdrv"], cwd=os.path.join(V, "lean"))
